@@ -117,10 +117,11 @@ type combCase struct {
 	Setup   string   `json:"setup"`   // one behaviour letter per component
 	Iters   []string `json:"iters"`   // per iteration (id = index+1), one behaviour letter per component
 	Workers int      `json:"workers"` // 1 = sequential (deterministic)
+	Bare    bool     `json:"bare"`    // the harness registers no per-iteration Cleanup of its own (no end-of-iteration record)
 }
 
 func (c combCase) key() string {
-	return fmt.Sprintf("%d|%s|%s|%s|%d", c.N, c.tree(), c.Setup, strings.Join(c.Iters, ","), c.Workers)
+	return fmt.Sprintf("%d|%s|%s|%s|%d|%v", c.N, c.tree(), c.Setup, strings.Join(c.Iters, ","), c.Workers, c.Bare)
 }
 
 func (c combCase) tree() string {
@@ -203,6 +204,9 @@ func (c combCase) classes() []string {
 	}
 	if c.N >= 3 {
 		add("components>=3")
+	}
+	if c.Bare {
+		add("no-harness-cleanup")
 	}
 	if c.Tree != "" && strings.Count(c.Tree, "(") > 1 {
 		add("nested")
@@ -403,7 +407,13 @@ func execute(c combCase) (out outcome) {
 		run := combined(t)
 		return func(it *f1testing.T) {
 			rec.add(event{Kind: "iter-begin", H: it, Iter: it.Iteration})
-			// cleanups run after the iteration's result has been recorded
+			// cleanups run after the iteration's result has been recorded; "bare" cases register none,
+			// so that the iteration handles go through f1's machinery exactly as a scenario without
+			// cleanups would (their outcome is then judged on the final totals only)
+			if c.Bare {
+				run(it)
+				return
+			}
 			it.Cleanup(func() {
 				e := event{Kind: "iter-end", H: it, Iter: it.Iteration, Failed: it.Failed()}
 				if sequential {
@@ -561,6 +571,12 @@ func judge(c combCase, o outcome) string {
 		}
 		if p < len(group) && group[p].Kind == "iter" {
 			return fail("iteration %d: component %d ran although component %d stopped the iteration (behaviours %q)", id, group[p].Comp, k, bs)
+		}
+		if c.Bare {
+			if p != len(group) {
+				return fail("iteration %d: unexpected events after its components: %s", id, renderLog(group[p:]))
+			}
+			return ""
 		}
 		if p >= len(group) || group[p].Kind != "iter-end" {
 			return fail("iteration %d: no end-of-iteration record", id)
@@ -720,6 +736,7 @@ func genCase(t *rapid.T, maxIters int) combCase {
 	for i := range c.Iters {
 		c.Iters[i] = drawBehs(t, c.N, profile, "iterBeh")
 	}
+	c.Bare = rapid.IntRange(0, 2).Draw(t, "bare") == 0
 	return c
 }
 
@@ -782,6 +799,9 @@ func TestEnum_SmallScope(t *testing.T) {
 		assign(2, func(it1 string) {
 			assign(2, func(it2 string) {
 				n++
+				if msg := runCase("enum", combCase{N: 2, Setup: setup, Iters: []string{it1, it2}, Workers: 1, Bare: true}); msg != "" {
+					t.Fatalf("%s", msg)
+				}
 				if msg := runCase("enum", combCase{N: 2, Setup: setup, Iters: []string{it1, it2}, Workers: 1}); msg != "" {
 					t.Fatalf("%s", msg)
 				}
